@@ -1209,7 +1209,7 @@ public:
 
       const auto OVERFLOW_MASK(UINT32_C(1) << 8 | UINT32_C(1) << 16 | UINT32_C(1) << 24);
       from += offset;
-      const auto elen {len != -1 ? len : sz}, eeii{elen - elen % 8};
+      const auto elen {len != -1 ? len : sz - offset}, eeii{elen - elen % 8}; // no length given: the remainder of the buffer
       std::uint32_t ret{}, overflow{}, overflowtmp{};
       size_t ii{};
       for (; ii < eeii; ii += 4)
@@ -1233,7 +1233,7 @@ public:
 #else
 		// native chksum algorithm
 		unsigned val(0);
-		const char *eptr(from + (len != -1 ? len + offset : sz - offset));
+		const char *eptr(from + (len != -1 ? len + offset : sz));
 		for (const char *ptr(from + offset); ptr < eptr; val += *ptr++);
 		return val % 256;
 	}
